@@ -158,6 +158,10 @@ RULES: list[Rule] = [
     R(188, "if filename.endswith('.txt'):\n    filename = filename[:-4]", {"filename": "str_fname"}, mode="stmt", cls="S"),
     R(188, "if filename.startswith('abc'):\n    filename = filename[3:]", {"filename": "str_fname"}, mode="stmt", cls="S"),
     R(188, "filename[:-4] if filename.endswith('.txt') else filename", {"filename": "str_fname"}),
+    R(188, "filename[3:] if filename.startswith('abc') else filename", {"filename": "str_fname"}),
+    R(188, "filename[len(s):] if filename.startswith(s) else filename", {"filename": "str_fname", "s": "str"}),
+    R(188, "filename[:-len(s)] if filename.endswith(s) else filename", {"filename": "str_fname", "s": "str"}),
+    R(188, "if filename.startswith(s):\n    filename = filename[len(s):]", {"filename": "str_fname", "s": "str"}, mode="stmt", cls="S"),
     R(190, "list(map(lambda x: x.upper(), ws))", {"ws": "list_str"}, note="lambda x: x.upper() -> str.upper"),
     # ---- iterable / itertools / dict
     R(129, "for line in f.readlines():\n    out.append(line)", {"out": "empty_list"}, mode="stmt", cls="S", setup="import io\n",
